@@ -151,7 +151,7 @@ pub fn gf_of(c: Complex64) -> Option<i64> {
 }
 
 /// C12 alphabet: GF leaf -> literal (spec/mc/MC_ExprSimplify.tla `Leaves`)
-fn literal_of_gf(n: i64) -> Complex64 {
+pub fn literal_of_gf(n: i64) -> Complex64 {
     match n {
         0 => Complex64::new(0.0, 0.0),
         1 => Complex64::new(1.0, 0.0),
@@ -159,6 +159,9 @@ fn literal_of_gf(n: i64) -> Complex64 {
         3 => Complex64::new(3.0, 0.0),
         1008 => Complex64::new(-1.0, 0.0),
         505 => Complex64::new(0.5, 0.0),
+        506 => Complex64::new(1.5, 0.0),
+        1007 => Complex64::new(-2.0, 0.0),
+        4 => Complex64::new(4.0, 0.0),
         938 => Complex64::new(0.0, 2.0), // 2 * ImagUnit
         other => panic!("GF leaf {other} is not in the literal table of the harness"),
     }
@@ -346,22 +349,26 @@ fn near_cut(c: Complex64) -> bool {
     !n.is_finite() || n < 1e-9 || (c.re < 0.0 && c.im.abs() <= 1e-6 * c.re.abs())
 }
 
-/// max |value| over all sub-expressions, and whether a `^` base / `sqrt` argument sits on the cut
-fn scan(e: &Expression, p: &Point, scale: &mut f64, cut: &mut bool) {
+/// max |value| over all sub-expressions, whether a `^` base / `sqrt` argument sits on the cut, and whether
+/// some sub-expression has a value inside the simplifier's absolute tolerances (`is_zero`: |v| < 1e-10,
+/// `is_one`: |v - 1| < 1e-10) without being exactly 0 or 1
+fn scan(e: &Expression, p: &Point, scale: &mut f64, cut: &mut bool, tol: &mut bool) {
     if let Some(v) = eval(e, p) {
         if v.norm().is_finite() {
             *scale = scale.max(v.norm());
         }
+        let (z, o) = (v.norm(), (v - 1.0).norm());
+        *tol |= (z > 0.0 && z < 1e-8) || (o > 0.0 && o < 1e-8);
     }
     match e {
-        Expression::Prefix(x) => scan(&x.expression, p, scale, cut),
+        Expression::Prefix(x) => scan(&x.expression, p, scale, cut, tol),
         Expression::FunctionCall(f) => {
             if f.function == ExpressionFunction::SquareRoot {
                 if let Some(v) = eval(&f.expression, p) {
                     *cut |= near_cut(v);
                 }
             }
-            scan(&f.expression, p, scale, cut)
+            scan(&f.expression, p, scale, cut, tol)
         }
         Expression::Infix(i) => {
             if i.operator == InfixOperator::Caret {
@@ -369,8 +376,8 @@ fn scan(e: &Expression, p: &Point, scale: &mut f64, cut: &mut bool) {
                     *cut |= near_cut(v);
                 }
             }
-            scan(&i.left, p, scale, cut);
-            scan(&i.right, p, scale, cut);
+            scan(&i.left, p, scale, cut, tol);
+            scan(&i.right, p, scale, cut, tol);
         }
         _ => {}
     }
@@ -411,15 +418,25 @@ pub enum Judged {
 
 /// Compare `other` with `original` at `p` under the rules of DESIGN.md §2.2.
 pub fn judge(original: &Expression, other: &Expression, p: &Point) -> Judged {
+    judge_opts(original, other, p, false)
+}
+
+/// `tolerances`: also exclude points where a sub-expression of the original falls inside the simplifier's
+/// absolute tolerances (DESIGN.md §6 C12: "the tolerance behaviour itself is not judged")
+pub fn judge_opts(original: &Expression, other: &Expression, p: &Point, tolerances: bool) -> Judged {
     let Some(a) = eval(original, p) else { return Judged::NotJudged("incomplete") };
     if !a.re.is_finite() || !a.im.is_finite() {
         return Judged::NotJudged("original not finite");
     }
     let mut scale = 0.0;
     let mut cut = false;
-    scan(original, p, &mut scale, &mut cut);
+    let mut tol = false;
+    scan(original, p, &mut scale, &mut cut, &mut tol);
     if cut {
         return Judged::NotJudged("branch cut");
+    }
+    if tolerances && tol {
+        return Judged::NotJudged("inside simplifier tolerance");
     }
     match eval(&flip_zero_im(original), p) {
         Some(f) if close(a, f, scale) => {}
